@@ -1,7 +1,10 @@
 package main
 
 import (
+	"encoding/json"
 	"math/rand"
+	"reflect"
+	"sort"
 
 	"github.com/Comcast/rulio/core"
 )
@@ -68,7 +71,7 @@ func genMatch(r *rand.Rand, n int, tier string) []Case {
 				}
 			}
 		}
-		c := Case{"pattern": pat, "data": data, "bindings": bs}
+		c := Case{"pattern": pat, "data": data, "bindings": bs, "typed_salt": r.Intn(3)}
 		if g.VarData {
 			c["child"] = true
 		}
@@ -107,6 +110,98 @@ func execMatchOne(c Case) {
 	}
 	c["results"] = results
 	c["unmodified"] = deepEqual(p0, pat) && deepEqual(d0, data) && deepEqual(b0, bs)
+	// Go-typed twins (core.Map, []string, []core.Map, ...): must give the same
+	// answer as the JSON forms and must not be modified (type-sensitively)
+	salt := int(num(c["typed_salt"]))
+	tp, td := typify(pat, salt), typify(data, salt+1)
+	tp0, td0 := typify(pat, salt), typify(data, salt+1)
+	tr := matchOnce(tp, td, deepCopy(bs).(map[string]interface{}))
+	// (malformed patterns can make the answer depend on Go's map order: agree with ANY of the JSON runs)
+	agree := false
+	for _, ri := range results {
+		jr, _ := ri.(map[string]interface{})
+		if boolean(tr["err"]) == boolean(jr["err"]) && boolean(tr["panic"]) == boolean(jr["panic"]) &&
+			sameBindingSets(list(tr["bss"]), list(jr["bss"])) {
+			agree = true
+		}
+	}
+	c["typed_agree"] = agree
+	c["typed_unmodified"] = reflect.DeepEqual(tp, tp0) && reflect.DeepEqual(td, td0)
+}
+
+// typify: the same value built from Go types that need core's cast: maps as
+// core.Map, arrays of strings as []string, arrays of maps as []core.Map, empty
+// arrays as empty typed slices (which type depends on salt).
+func typify(v interface{}, salt int) interface{} {
+	switch x := v.(type) {
+	case map[string]interface{}:
+		m := core.Map{}
+		for k, y := range x {
+			m[k] = typify(y, salt+len(k))
+		}
+		return m
+	case []interface{}:
+		if len(x) == 0 {
+			switch salt % 3 {
+			case 0:
+				return []string{}
+			case 1:
+				return []core.Map{}
+			}
+			return []interface{}{}
+		}
+		allStr, allMap := true, true
+		for _, y := range x {
+			if _, ok := y.(string); !ok {
+				allStr = false
+			}
+			if _, ok := y.(map[string]interface{}); !ok {
+				allMap = false
+			}
+		}
+		if allStr {
+			out := make([]string, len(x))
+			for i, y := range x {
+				out[i] = y.(string)
+			}
+			return out
+		}
+		if allMap {
+			out := make([]core.Map, len(x))
+			for i, y := range x {
+				out[i] = typify(y, salt+i).(core.Map)
+			}
+			return out
+		}
+		out := make([]interface{}, len(x))
+		for i, y := range x {
+			out[i] = typify(y, salt+i)
+		}
+		return out
+	}
+	return v
+}
+
+func sameBindingSets(a, b []interface{}) bool {
+	key := func(l []interface{}) []string {
+		var out []string
+		for _, x := range l {
+			js, _ := json.Marshal(x)
+			out = append(out, string(js))
+		}
+		sort.Strings(out)
+		return out
+	}
+	ka, kb := key(a), key(b)
+	if len(ka) != len(kb) {
+		return false
+	}
+	for i := range ka {
+		if ka[i] != kb[i] {
+			return false
+		}
+	}
+	return true
 }
 
 func execMatch(cases []Case) []Case {
@@ -115,6 +210,7 @@ func execMatch(cases []Case) []Case {
 			runInChild("match", c, func(c Case, kind string) {
 				c["results"] = []interface{}{map[string]interface{}{kind: true, "err": false, "bss": []interface{}{}}}
 				c["unmodified"] = true
+				c["typed_agree"], c["typed_unmodified"] = true, true
 			})
 			continue
 		}
